@@ -110,6 +110,7 @@ def _dump_result(status):
         "steps": S.steps,
         "cur_op": S.cur_op,
         "harness": S.harness_notes,
+        "impl": getattr(S, "impl", {}),
     }
     data = json.dumps(doc).encode("utf-8")
     fd = S.os_open(os.path.join(S.root, "result.json"), os.O_WRONLY | os.O_CREAT | os.O_TRUNC, 0o644)
@@ -516,6 +517,7 @@ def _payload(action, args):
 
 
 def _wrap_instance(plugin_id, instance):
+    S.impl[plugin_id] = [action for action in _ACTIONS if action in type(instance).__dict__]
     for action in _ACTIONS:
         if action not in type(instance).__dict__:
             continue
@@ -655,6 +657,7 @@ def _run_op(op):
     sys.stdout, sys.stderr = out, err
     sys.stdin = _make_stdin(op)
     builtins.__pmsim_probe__ = op.get("probes") or {}
+    builtins.__pmsim_calls__ = []
     result = {"exit": None, "exc": None}
     S.curfile = "<stdin>" if op.get("stdin_b64") is not None else None
     try:
@@ -692,6 +695,10 @@ def _run_op(op):
         result["tb"] = traceback.format_exc()[-2000:]
     finally:
         sys.stdout, sys.stderr, sys.stdin = saved
+    counts = {}
+    for pid, _action in builtins.__pmsim_calls__:
+        counts[pid] = counts.get(pid, 0) + 1
+    result["probe_calls"] = counts
     result["stdout"] = out.getvalue()
     result["stderr"] = err.getvalue()
     return result
@@ -734,7 +741,7 @@ def _child(request, root):
     S.op_results, S.log, S.sites, S.fired, S.harness_notes = [], [], [], [], []
     S.counts, S.steps, S.cur_op, S.curfile = {}, 0, 0, None
     S.last_copy, S.outside_reads, S.stdin_reads, S.in_parse = {}, 0, 0, 0
-    S.api, S.plugins_seen = None, []
+    S.api, S.plugins_seen, S.impl = None, [], {}
     _write_tree(request)
     os.chdir(S.work)
     _install_world(request.get("world") or {})
